@@ -20,6 +20,7 @@ CONSTANTS
   KF_RequeueEarly = %(kf2)s
   KF_EarlyRelease = %(kf3)s
   KF_LateClaim = %(kf4)s
+  KF_LateActive = %(kf5)s
   GetEarly = FALSE
 INVARIANT C03_NoViolation
 INVARIANT C01_StaysStored
@@ -36,7 +37,9 @@ QC = {
     'a2': dict(nmsg=1, nrcpt=3, indexlog='FALSE', yields='TRUE', backoff='B00N', maxtime=1, flushes=0, ann=0, loads=0),
     'b': dict(nmsg=1, nrcpt=2, indexlog='TRUE', yields='TRUE', backoff='B0N', maxtime=1, flushes=1, ann=1, loads=1),
     'c0': dict(nmsg=2, nrcpt=2, indexlog='TRUE', yields='TRUE', backoff='B01N', maxtime=1, flushes=1, ann=0, loads=1),
-    'd23': dict(nmsg=1, nrcpt=1, indexlog='FALSE', yields='TRUE', backoff='B01N', maxtime=1, flushes=0, ann=1, loads=0),
+    'd23': dict(nmsg=1, nrcpt=1, indexlog='FALSE', yields='TRUE', backoff='B01N', maxtime=1, flushes=0, ann=1, loads=0, kf5='TRUE'),
+    'd23l': dict(nmsg=1, nrcpt=1, indexlog='FALSE', yields='TRUE', backoff='B01N', maxtime=1, flushes=0, ann=0, loads=1, kf5='TRUE'),
+    'ann': dict(nmsg=1, nrcpt=1, indexlog='FALSE', yields='TRUE', backoff='B01N', maxtime=1, flushes=1, ann=2, loads=1),
     'live1': dict(nmsg=1, nrcpt=2, indexlog='TRUE', yields='TRUE', backoff='B0N', maxtime=1, flushes=0, ann=0, loads=0,
                   spec='FairSpec', props='PROPERTY C01_EventuallySettled'),
     'live2': dict(nmsg=2, nrcpt=1, indexlog='FALSE', yields='TRUE', backoff='B01N', maxtime=2, flushes=1, ann=0, loads=0,
@@ -51,7 +54,9 @@ QC_TEXT = {
     'a2': 'QueueCore 1 msg x 3 rcpt, in-place backend with yielding storage calls',
     'b': 'QueueCore 1 msg x 2 rcpt, yielding index-log backend, flush + announcement + load',
     'c0': 'QueueCore 2 msgs x 2 rcpt, yielding index-log backend, flush + load, backoff 0/1',
-    'd23': 'QueueCore duplicate announcement while a dequeue is in flight (known finding D23: early retry) - TLC must find it',
+    'd23': 'deviation KF_LateActive (D23 as found): announcement while a dequeue is in flight - TLC must find the early retry',
+    'd23l': 'deviation KF_LateActive (D23 as found): start-up listing while a dequeue is in flight - TLC must find the early retry',
+    'ann': 'QueueCore 1 msg, yielding backend, two announcements + listing + flush at any moment, backoff 0/1',
     'live1': 'QueueCore liveness under weak fairness: every accepted message is eventually settled (1 msg x 2 rcpt)',
     'live2': 'QueueCore liveness under weak fairness with flush (2 msgs, backoff 0/1)',
     'kf1': 'deviation KF_GlobalSort (D2 as found): TLC must find the wrong-recipient counterexample',
@@ -64,10 +69,10 @@ QC_TEXT = {
 def qc_jobs(wd, names):
     jobs = []
     for n in names:
-        d = dict(kf1='FALSE', kf2='FALSE', kf3='FALSE', kf4='FALSE', spec='Spec', props='')
+        d = dict(kf1='FALSE', kf2='FALSE', kf3='FALSE', kf4='FALSE', kf5='FALSE', spec='Spec', props='')
         d.update(QC[n])
         job = {'name': QC_TEXT[n], 'module': 'MC_QueueCore', 'cfg': flow.write_cfg(wd, 'qc_%s.cfg' % n, QC_CFG % d), 'timeout': 3000}
-        if n.startswith('kf') or n == 'd23':
+        if n.startswith('kf') or n.startswith('d23'):
             job['expect_violation'] = ['C03_NoViolation', 'C01_StaysStored', 'C03_GetExact']
         jobs.append(job)
     return jobs
